@@ -136,4 +136,25 @@ CONFIG = {
         "extra_modules": ["PatVerif.Proofs.Group"],
         "contradicts": "PatVerif.Props.C08",
     },
+    "C03": {
+        "rule": "28 probe groups covering the 36 peer-facing entry points (decoders; finalizers on real request states; issuer evaluation "
+                "of decoded values; token verification; attester VerifyRequest/FinalizeIndex incl. blind and key arguments; ecdsa.Verify/"
+                "VerifyASN1; ed25519.Verify; quicwire consumers). Inputs per entry: the honest message, every truncation (sampled above 80 "
+                "bytes in quick), 1..8-byte extensions, every value class at the first 8 bytes, varint prefixes 2^14..2^62-1 spliced in front "
+                "and after the 3-byte header, random bit flips / byte classes / cuts, random strings, nil and empty — each placed in a buffer "
+                "with 64 poisoned spare bytes. Per call: recovered panic, TotalAlloc delta ≤ 4 MiB + 512·|input|, wall time < 3 s. The literal "
+                "Lean models of the hand-rolled decoders and finalizers are compared on outcome and value.",
+        "level_text": "For every function with raw slice/index/make expressions a literal Lean model in which those operations are partial, and "
+                      "theorems that the result is never `panic` for every input and every behaviour of the dependency calls, with a linear bound "
+                      "on make() sizes (type-5 decoder ≤ 2·|input|, FinalizeTokens ≤ |input|+64); cryptobyte-only decoders are total by "
+                      "construction; termination by Lean's checker. Tied to the Go code by comparing the literal models with the implementation on "
+                      "the malformed stream, and by direct no-panic / allocation / time oracles on every entry point.",
+        "level_note": "Partial: dependencies (circl, go-hpke, crypto/*, cryptobyte ASN.1) not panicking on arbitrary bytes is assumed and only "
+                      "observed; wall-clock hangs and resident memory are runtime facts — the theorem is termination and a make-size bound of the "
+                      "model, the harness's timeout/allocation counters validate it. ed25519.Verify's public-key length is a documented precondition.",
+        "trusted_base": COMMON_TB + ["dependencies are total on arbitrary bytes (observed, not proved)"],
+        "assumptions": ["inputs shorter than 2^31 bytes", "ed25519 public keys are 32 bytes (documented precondition)"],
+        "mem_gb": 6,
+        "contradicts": "PatVerif.Props.C03",
+    },
 }
